@@ -162,7 +162,7 @@ func verifRunFault(out *verifkit.Trace, sim *verifsim.Sim, c verifFaultCase, url
 		whole = c.at >= wholeFrom
 	case "stall":
 		whole = c.at >= wholeFrom
-	case "refuse", "garbage_pre", "nohandshake", "reset_pre":
+	case "refuse", "garbage_pre", "nohandshake", "reset_pre", "garbage":
 		whole = false
 	}
 	stage := c.stage
@@ -301,6 +301,17 @@ func TestVerifFaults(t *testing.T) {
 				}
 			}
 			verifRunFault(out, sim, c, u, r, wf)
+			sim.Reset()
+		}
+	}
+	/* garbage in place of the status line: nothing but a line break, a line break in front of an otherwise good response, blanks */
+	for hops := 0; hops <= 1; hops++ {
+		for _, first := range []string{"\n", "\r\n", "\n\n", " \n", "\nHTTP/1.1 200 OK\r\nContent-Type: application/activity+json\r\n\r\n{\"type\":\"Note\",\"tag\":\"doc\"}", "\x00\n", "H\n"} {
+			c := verifFaultCase{id: newID(), hops: hops, hop: hops, kind: "garbage", stage: "before-status"}
+			u, _, _ := verifInstall(sim, c, false)
+			host := sim.Host([]string{"f1", "f2", "f3"}[hops%3])
+			host.Set(fmt.Sprintf("/%s/%d", c.id, hops), &verifsim.Route{Raw: []byte(first)})
+			verifRunFault(out, sim, c, u, []byte(first), len(first)+1)
 			sim.Reset()
 		}
 	}
